@@ -98,7 +98,10 @@ class RefLP:
         cts = ck.vec(a['costs_time_series'], self.prices) if a.get('costs_time_series') else np.zeros(self.T)
         fs = {}
         for t in W:
-            f = self.var(a['min_cap'] * ck.dt[t], a['max_cap'] * ck.dt[t], (cts[t] + a.get('costs_const', 0.)) * d[t], ('flow', a['name'], t))
+            cost = (cts[t] + a.get('costs_const', 0.)) * d[t]
+            if a['max_cap'] <= 0:
+                cost = -cost          # a link used against its nominal direction: the flow variable is <= 0, costs are paid on the absolute flow
+            f = self.var(a['min_cap'] * ck.dt[t], a['max_cap'] * ck.dt[t], cost, ('flow', a['name'], t))
             self.addbal(a['nodes'][0], t, f, -1.); self.addbal(a['nodes'][1], t, f, a.get('efficiency', 1.))
             fs[t] = f
         for key, sense in (('max_take', 'U'), ('min_take', 'L')):
